@@ -45,7 +45,7 @@ def check(ctx, rep):
             if v[0] == "after" and util.is_call(v[1], "rc4::Rc4::apply_keystream") and v[2] == 0 and util.is_call(v[3], "rc4::Rc4::new"):
                 key = util.bexpr(ctx, se, v[3][2][0])
                 want = ("HMAC", P(2), (P(1),))
-                rep.check(key == want, "derivation", fn, "hmac-key", "RC4 key = all bytes of HMAC-SHA1(key = direction constant; session key)", "RC4 key is %s, expected HMAC-SHA1(key=arg2; arg1)" % show_b(key)[:300], se.body.loc())
+                rep.check(key == util.cb(want), "derivation", fn, "hmac-key", "RC4 key = all bytes of HMAC-SHA1(key = direction constant; session key)", "RC4 key is %s, expected HMAC-SHA1(key=arg2; arg1)" % show_b(key)[:300], se.body.loc())
                 site = v[1][3][:2]
                 pad = se.call_old.get((site, 1))
                 pad = strip(pad) if pad else None
